@@ -31,7 +31,7 @@ func init() { sim.Register(c15{}) }
 
 func (c15) ID() string { return "C15" }
 
-var c15Types = []string{gen.TOpen2, gen.TOpen3, gen.TEditions, gen.THybrid, gen.TOpaque, gen.TOpaque, gen.TLazyNode, gen.TMixedOpq, gen.TExt2, gen.TManyOpaque, gen.TReqLazy}
+var c15Types = []string{gen.TOpen2, gen.TOpen3, gen.TEditions, gen.THybrid, gen.TOpaque, gen.TOpaque, gen.TLazyNode, gen.TMixedOpq, gen.TExt2, gen.TManyOpaque, gen.TReqLazy, "pbsim.fx.AfterOneof", "opaque.goproto.proto.test3.TestAllTypes", "hybrid.goproto.proto.test3.TestAllTypes"}
 
 var c15Hist = []string{"set-scalar", "set-scalar", "clear-field", "set-msg", "mutable-touch", "gen-set-msg", "gen-clear", "merge-into", "append-list", "map-set", "elem-mutate", "unknown-append",
 	"decode-lazy", "decode-lazy", "decode-eager", "decode-merge", "decode-truncated", "decode-corrupt", "touch", "touch", "marshal", "set-ext", "oneof-switch"}
